@@ -10,8 +10,8 @@ import (
 
 	"github.com/creasty/defaults"
 	"github.com/ethereum/go-ethereum/crypto"
-	"github.com/mitchellh/mapstructure"
 
+	"github.com/ChainSafe/sygma-relayer/config"
 	"github.com/ChainSafe/sygma-relayer/config/chain"
 	"github.com/sygmaprotocol/sygma-core/crypto/secp256k1"
 )
@@ -105,7 +105,7 @@ func NewEVMConfig(chainConfig map[string]interface{}) (*EVMConfig, error) {
 		return nil, err
 	}
 
-	err = mapstructure.Decode(chainConfig, &c)
+	err = config.DecodeExact(chainConfig, &c)
 	if err != nil {
 		return nil, err
 	}
